@@ -414,7 +414,7 @@ fn collect_side_channels(opts: &Opts, out: &mut String) {
                 if k > 0 {
                     out.push(',');
                 }
-                let _ = write!(out, "[{},{},{}]", c.0, c.1, c.2 as u8);
+                let _ = write!(out, "[{},{},{},{}]", c.0, c.1 as u8, c.2, c.3 as u8);
             }
             out.push_str("],\"retained\":[");
             for (k, r) in d.retained.iter().enumerate() {
